@@ -163,6 +163,11 @@ func verifyFunc(prog *Program, fi *FuncInfo, fc *FuncContract, mode *ModeDef) (r
 	}()
 
 	sig := fi.Obj.Type().(*types.Signature)
+	if why := staleSignature(fc, sig); why != "" {
+		// a contract is a statement about one interface; when the function's parameters or results changed, the
+		// statement is about something else: undecided, never a violation
+		panic(unsupported{"the contract of " + fc.Key + " is stale: " + why})
+	}
 	st := newState()
 	// spec function axioms
 	// ghosts
@@ -861,4 +866,19 @@ func vacuousCovers(obls []*Obligation) []*Obligation {
 		}
 	}
 	return out
+}
+
+
+// staleSignature: the `func` directive of a contract lists parameters/results, and their number differs from the code's.
+func staleSignature(fc *FuncContract, sig *types.Signature) string {
+	if fc == nil || fc.Trusted {
+		return ""
+	}
+	if len(fc.ParamNames) > 0 && len(fc.ParamNames) != sig.Params().Len() {
+		return fmt.Sprintf("it was written for %d parameter(s), the function now has %d", len(fc.ParamNames), sig.Params().Len())
+	}
+	if len(fc.ResultNames) > 0 && len(fc.ResultNames) != sig.Results().Len() {
+		return fmt.Sprintf("it was written for %d result(s), the function now has %d", len(fc.ResultNames), sig.Results().Len())
+	}
+	return ""
 }
